@@ -493,7 +493,32 @@ pub fn c07(eng: &mut Engine, rng: &mut Rng, thorough: bool, out: &mut Out) -> Ca
         if sel.is_empty() {
             continue;
         }
-        let req: PresentationRequest = serde_json::from_value(json!({"nonce": format!("{}", 1000 + rng.below(1_000_000_000)), "name":"r","version":"1.0","requested_attributes": attrs, "requested_predicates": preds})).unwrap();
+        // request features that have nothing to do with disclosure must not change it: non-revocation intervals (the definition is
+        // not revocable: they are void) and restrictions on any referent, a request-wide interval, a second predicate on an attribute
+        for m in [&mut attrs, &mut preds] {
+            for (_, v) in m.iter_mut() {
+                if rng.chance(1, 3) {
+                    v["non_revoked"] = match rng.below(3) { 0 => json!({"from": 5, "to": 50}), 1 => json!({"to": 20}), _ => json!({"from": 7}) };
+                }
+                if rng.chance(1, 4) {
+                    v["restrictions"] = match rng.below(3) { 0 => json!({"schema_name": "gvt"}), 1 => json!([{"cred_def_id": d.cid.0}, {"issuer_id": "did:web:nobody"}]), _ => json!({"$not": {"schema_version": "9.9"}}) };
+                }
+            }
+        }
+        if let Some((k, _)) = sel.iter().find(|(_, is_pred, _)| *is_pred).cloned().map(|(r, _, _)| (r, ())) {
+            if rng.chance(1, 2) {
+                let mut second = preds[k.as_str()].clone();
+                second["p_type"] = json!("<=");
+                second["p_value"] = json!(99_999_999);
+                preds.insert(format!("{k}b"), second);
+                sel.push((format!("{k}b"), true, false));
+            }
+        }
+        let mut reqj = json!({"nonce": format!("{}", 1000 + rng.below(1_000_000_000)), "name":"r","version":"1.0","requested_attributes": attrs, "requested_predicates": preds});
+        if rng.chance(1, 4) {
+            reqj["non_revoked"] = json!({"from": 1, "to": 100});
+        }
+        let req: PresentationRequest = serde_json::from_value(reqj).unwrap();
         let pres_json: Option<Value> = if w3c_form {
             let mut pc = PresentCredentials::default();
             {
